@@ -419,7 +419,7 @@ func c17dupSweep(st *Stats) *Viol {
 			}
 		}
 		n++
-		if err := g.Validate(); err == nil {
+		if err := safeValidate(g); err == nil {
 			raw := json.RawMessage(chain.Codec().MustMarshalJSON(g))
 			v := viol("C17", 0, fmt.Sprintf("validation accepts a genesis of %d entries in which two entries of a keyed list share a key", size+1), "rejected", "accepted")
 			saveFail("C17", "c17-genesis", raw, v)
@@ -440,7 +440,7 @@ func c17dupSweep(st *Stats) *Viol {
 		at := next(len(g.UsedNoncesList) + 1)
 		g.UsedNoncesList = append(g.UsedNoncesList[:at], append([]types.Nonce{dup}, g.UsedNoncesList[at:]...)...)
 		n++
-		if err := g.Validate(); err == nil {
+		if err := safeValidate(g); err == nil {
 			raw := json.RawMessage(chain.Codec().MustMarshalJSON(g))
 			v := viol("C17", 0, fmt.Sprintf("validation accepts an export-ordered used-nonce list of %d entries with (%d, %d) listed twice", len(g.UsedNoncesList), dup.SourceDomain, dup.Nonce), "rejected", "accepted")
 			saveFail("C17", "c17-genesis", raw, v)
@@ -632,4 +632,15 @@ func fuzzGenesisJSON(f *testing.F) {
 			t.Fatalf("VIOLATION %s", v)
 		}
 	})
+}
+
+// safeValidate: GenesisState.Validate with a panic turned into an error (a validation that dies refuses the
+// document as well; whether it may die is C18's and C20's question, not C17's).
+func safeValidate(g *types.GenesisState) (err error) {
+	defer func() {
+		if r := recover(); r != nil {
+			err = fmt.Errorf("validate panic: %v", r)
+		}
+	}()
+	return g.Validate()
 }
